@@ -186,3 +186,13 @@ Proof.
   - intros s ->. reflexivity.
   - intros ->. cbn. apply Qc_is_canon. reflexivity.
 Qed.
+
+(* a map given to a PDE/Abel test problem is never dropped: the domain geometry is a MappedGeometry for every
+   field_type, names and instances alike, and wraps the class selected by field_type *)
+Lemma domain_geometry_mapped_iff (f : ftype) (has_map : bool) :
+  fst (fst (domain_geometry_desc f has_map)) = has_map /\
+  snd (fst (domain_geometry_desc f has_map)) = gclass_code (base_class f) /\
+  (forall c, f = FInstance c -> snd (domain_geometry_desc f has_map) = true /\ base_class f = c).
+Proof.
+  split; [reflexivity|]. split; [reflexivity|]. intros c Hc. subst f. split; reflexivity.
+Qed.
